@@ -91,4 +91,192 @@ theorem no_colour_unless_requested :
   · intro w; rfl
   · intro b s w; cases b <;> cases s <;> rfl
 
+/-! ### parsed back -/
+
+/-- `json.loads ∘ json.dumps = id` on EVERY JSON value tree: strings with every escape class,
+nested arrays/objects with Python's separators, ints of any size, bools, null, float tokens -/
+theorem loads_dumps (v : JVal) : loads (dumps Gen.ensureAscii v) = some v := by
+  have h : Gen.ensureAscii = false := rfl
+  rw [h]; exact loads_dumps_false v
+
+/-- a key of the serialised object -/
+abbrev K (s : String) : Str := s.toList
+
+/-- "the value found at `path` in the parsed JSON is the encoder's image of the record's own value `w`"
+(a JSON-representable value as itself, anything else as `str(w)`) -/
+def Mirrors (strOf : Nat → Except Err Str) (j : JVal) (path : List Str) (w : PyVal) : Prop :=
+  ∃ jw, toJson Gen.defaultIsStr strOf w = .ok jw ∧ j.get path = some jw
+
+/-- a successful `_serialize_record` is the dump of the encoder's image of the generated dict + LF -/
+theorem serialize_ok (strOf : Nat → Except Err Str) (text : Str) (r : Record) (s : Str)
+    (h : serializeRecord strOf text r = .ok s) :
+    ∃ j, toJson Gen.defaultIsStr strOf (serializable text r) = .ok j ∧
+      s = dumps Gen.ensureAscii j ++ ['\n'] := by
+  unfold serializeRecord at h
+  split at h
+  · rename_i j hj
+    have hs : Gen.suffix = ['\n'] := by decide
+    rw [hs] at h
+    exact ⟨j, hj, (Except.ok.inj h).symm⟩
+  · cases h
+
+/-- Parsed back, `text` is the formatted message and `record` carries every listed field, each equal
+to the record's own value.  (`loads` of the line without its final LF gives `j`.) -/
+theorem record_mirrored (strOf : Nat → Except Err Str) (text : Str) (r : Record) (s : Str)
+    (h : serializeRecord strOf text r = .ok s) :
+    ∃ j, s = dumps Gen.ensureAscii j ++ ['\n'] ∧ loads (dumps Gen.ensureAscii j) = some j ∧
+      j.get [K "text"] = some (.str text) ∧
+      Mirrors strOf j [K "record", K "message"] r.message ∧
+      Mirrors strOf j [K "record", K "level", K "name"] r.levelName ∧
+      Mirrors strOf j [K "record", K "level", K "no"] r.levelNo ∧
+      Mirrors strOf j [K "record", K "level", K "icon"] r.levelIcon ∧
+      Mirrors strOf j [K "record", K "time", K "repr"] r.time ∧
+      Mirrors strOf j [K "record", K "time", K "timestamp"] r.timeTimestamp ∧
+      Mirrors strOf j [K "record", K "elapsed", K "repr"] r.elapsed ∧
+      Mirrors strOf j [K "record", K "elapsed", K "seconds"] r.elapsedSeconds ∧
+      Mirrors strOf j [K "record", K "file", K "name"] r.fileName ∧
+      Mirrors strOf j [K "record", K "file", K "path"] r.filePath ∧
+      Mirrors strOf j [K "record", K "function"] r.function ∧
+      Mirrors strOf j [K "record", K "line"] r.line ∧
+      Mirrors strOf j [K "record", K "module"] r.module ∧
+      Mirrors strOf j [K "record", K "name"] r.name ∧
+      Mirrors strOf j [K "record", K "process", K "id"] r.processId ∧
+      Mirrors strOf j [K "record", K "process", K "name"] r.processName ∧
+      Mirrors strOf j [K "record", K "thread", K "id"] r.threadId ∧
+      Mirrors strOf j [K "record", K "thread", K "name"] r.threadName ∧
+      Mirrors strOf j [K "record", K "extra"] r.extra := by
+  obtain ⟨j, hj, hs⟩ := serialize_ok strOf text r s h
+  refine ⟨j, hs, loads_dumps j, ?_, ?_⟩
+  · obtain ⟨jw, h1, h2⟩ := toJson_get _ strOf [K "text"] _ (.str text) j hj rfl
+    simp only [toJson] at h1; cases h1; exact h2
+  · refine ⟨?_, ?_, ?_, ?_, ?_, ?_, ?_, ?_, ?_, ?_, ?_, ?_, ?_, ?_, ?_, ?_, ?_, ?_, ?_⟩ <;>
+      exact toJson_get _ strOf _ _ _ j hj rfl
+
+/-- the exception summary: `null` without exception; otherwise type name (or null), the value
+(an exception instance is opaque, so `str(value)`), and whether a traceback exists -/
+theorem exception_mirrored (strOf : Nat → Except Err Str) (text : Str) (r : Record) (s : Str)
+    (h : serializeRecord strOf text r = .ok s) :
+    ∃ j, s = dumps Gen.ensureAscii j ++ ['\n'] ∧
+      (r.exception = none → j.get [K "record", K "exception"] = some .null) ∧
+      (∀ e, r.exception = some e →
+        j.get [K "record", K "exception", K "type"] =
+          some (match e.typeName with | none => .null | some n => .str n) ∧
+        Mirrors strOf j [K "record", K "exception", K "value"] e.value ∧
+        j.get [K "record", K "exception", K "traceback"] = some (.bool e.hasTraceback)) := by
+  obtain ⟨j, hj, hs⟩ := serialize_ok strOf text r s h
+  refine ⟨j, hs, ?_, ?_⟩
+  · intro hn
+    have hg : (serializable text r).get [K "record", K "exception"] = some .none := by
+      simp only [serializable, exceptionValue, hn]; rfl
+    obtain ⟨jw, h1, h2⟩ := toJson_get _ strOf _ _ _ j hj hg
+    simp only [toJson] at h1; cases h1; exact h2
+  · intro e he
+    have hser : serializable text r = Gen.serializable (.str text) r (Gen.exceptionSummary e) := by
+      simp only [serializable, exceptionValue, he]
+    rw [hser] at hj
+    refine ⟨?_, toJson_get _ strOf _ _ _ j hj rfl, ?_⟩
+    · obtain ⟨jw, h1, h2⟩ := toJson_get _ strOf [K "record", K "exception", K "type"] _ (optStr e.typeName) j hj rfl
+      rw [h2]
+      cases hn : e.typeName <;> (rw [hn] at h1; simp only [optStr, toJson] at h1; cases h1; rfl)
+    · obtain ⟨jw, h1, h2⟩ := toJson_get _ strOf [K "record", K "exception", K "traceback"] _ (.bool e.hasTraceback) j hj rfl
+      simp only [toJson] at h1; cases h1; exact h2
+
+/-- exactly the documented keys, in the documented order, and nothing else -/
+theorem record_keys (strOf : Nat → Except Err Str) (text : Str) (r : Record) (s : Str)
+    (h : serializeRecord strOf text r = .ok s) :
+    ∃ j, s = dumps Gen.ensureAscii j ++ ['\n'] ∧
+      j.keysAt [] = some [K "text", K "record"] ∧
+      j.keysAt [K "record"] = some [K "elapsed", K "exception", K "extra", K "file", K "function",
+        K "level", K "line", K "message", K "module", K "name", K "process", K "thread", K "time"] ∧
+      j.keysAt [K "record", K "level"] = some [K "icon", K "name", K "no"] ∧
+      j.keysAt [K "record", K "time"] = some [K "repr", K "timestamp"] ∧
+      j.keysAt [K "record", K "elapsed"] = some [K "repr", K "seconds"] ∧
+      j.keysAt [K "record", K "file"] = some [K "name", K "path"] ∧
+      j.keysAt [K "record", K "process"] = some [K "id", K "name"] ∧
+      j.keysAt [K "record", K "thread"] = some [K "id", K "name"] ∧
+      (∀ e, r.exception = some e →
+        j.keysAt [K "record", K "exception"] = some [K "type", K "value", K "traceback"]) := by
+  obtain ⟨j, hj, hs⟩ := serialize_ok strOf text r s h
+  refine ⟨j, hs, ?_, ?_, ?_, ?_, ?_, ?_, ?_, ?_, ?_⟩
+  · exact toJson_keysAt _ strOf [] _ j _ hj rfl
+  · exact toJson_keysAt _ strOf [K "record"] _ j _ hj rfl
+  · exact toJson_keysAt _ strOf [K "record", K "level"] _ j _ hj rfl
+  · exact toJson_keysAt _ strOf [K "record", K "time"] _ j _ hj rfl
+  · exact toJson_keysAt _ strOf [K "record", K "elapsed"] _ j _ hj rfl
+  · exact toJson_keysAt _ strOf [K "record", K "file"] _ j _ hj rfl
+  · exact toJson_keysAt _ strOf [K "record", K "process"] _ j _ hj rfl
+  · exact toJson_keysAt _ strOf [K "record", K "thread"] _ j _ hj rfl
+  · intro e he
+    have hser : serializable text r = Gen.serializable (.str text) r (Gen.exceptionSummary e) := by
+      simp only [serializable, exceptionValue, he]
+    rw [hser] at hj
+    exact toJson_keysAt _ strOf [K "record", K "exception"] _ j _ hj rfl
+
+/-! ### values JSON cannot represent -/
+
+/-- an object the encoder has no rule for becomes the JSON string `str(obj)`; the only way for the
+whole call to fail is that `str()` of one of the opaque objects inside the value fails, and then
+with that very error -/
+theorem unrepresentable_rendered_with_str (strOf : Nat → Except Err Str) :
+    (∀ o t, strOf o = .ok t → toJson Gen.defaultIsStr strOf (.opaque o) = .ok (.str t)) ∧
+    (∀ v e, toJson Gen.defaultIsStr strOf v = .error e → ∃ o ∈ opaques v, strOf o = .error e) ∧
+    (∀ v, (∀ o ∈ opaques v, ∃ t, strOf o = .ok t) → ∃ j, toJson Gen.defaultIsStr strOf v = .ok j) := by
+  have hd : Gen.defaultIsStr = true := rfl
+  rw [hd]
+  refine ⟨?_, fun v e h => toJson_error strOf e v h, ?_⟩
+  · intro o t h; simp [toJson, h]
+  · intro v hall
+    cases hv : toJson true strOf v with
+    | ok j => exact ⟨j, rfl⟩
+    | error e =>
+      obtain ⟨o, ho, hs⟩ := toJson_error strOf e v hv
+      obtain ⟨t, ht⟩ := hall o ho
+      rw [ht] at hs; cases hs
+
+/-- … for the record: `_serialize_record` fails only if `str()` fails on an opaque object reachable
+from the dictionary it builds (extra values, exception value, time, elapsed, patched fields) -/
+theorem serialize_fails_only_if_str_fails (strOf : Nat → Except Err Str) (text : Str) (r : Record) (e : Err)
+    (h : serializeRecord strOf text r = .error e) :
+    ∃ o ∈ opaques (serializable text r), strOf o = .error e := by
+  unfold serializeRecord at h
+  split at h
+  · cases h
+  · rename_i e' he
+    cases h
+    exact (unrepresentable_rendered_with_str strOf).2.1 _ _ he
+
+/-! ### non-vacuity -/
+
+def exFloat : FloatTok := ⟨"1.5e-07".toList, by decide⟩
+def exVal : JVal :=
+  .obj (.cons (K "a\n\"") (.arr (.cons (.int (-12)) (.cons (.float exFloat) (.cons (.str (K "é \\\x01")) .nil))))
+       (.cons (K "") (.obj .nil) (.cons (K "n") .null (.cons (K "t") (.bool true) .nil))))
+
+example : dumps false exVal =
+    "{\"a\\n\\\"\": [-12, 1.5e-07, \"é \\\\\\u0001\"], \"\": {}, \"n\": null, \"t\": true}".toList := by decide
+example : loads (dumps false exVal) = some exVal := loads_dumps exVal
+example : loads "[1 2]".toList = none := by decide
+example : (loads "[-12]".toList).map (dumps false) = some "[-12]".toList := by decide
+example : (loads "[NaN]".toList).map (dumps false) = some "[NaN]".toList := by decide
+example : escapeChar Gen.ensureAscii '\u2028' = ['\u2028'] := non_ascii_verbatim_high _ (by decide)
+
+def exRecord : Record :=
+  { elapsed := .opaque 0, elapsedSeconds := .float exFloat, exception := some ⟨some (K "ValueError"), .opaque 1, true⟩,
+    extra := .dict (.cons (K "k") (.list (.cons (.opaque 2) .nil)) .nil), fileName := .str (K "f.py"),
+    filePath := .str (K "/f.py"), function := .str (K "<module>"), levelIcon := .str (K "ℹ️"),
+    levelName := .str (K "INFO"), levelNo := .int 20, line := .int 7, message := .str (K "a\nb"),
+    module := .str (K "f"), name := .none, processId := .int 1, processName := .str (K "MainProcess"),
+    threadId := .int 2, threadName := .str (K "MainThread"), time := .opaque 3, timeTimestamp := .float exFloat }
+def exStr : Nat → Except Err Str := fun o => if o = 2 then .error .valueError else .ok (K "x\r")
+def exStrOk : Nat → Except Err Str := fun _ => .ok (K "b'\\n'")
+
+example : ∃ s, serializeRecord exStrOk (K "a\nb\n") exRecord = .ok s := by
+  obtain ⟨j, hj⟩ := (unrepresentable_rendered_with_str exStrOk).2.2 (serializable (K "a\nb\n") exRecord)
+    (fun o _ => ⟨_, rfl⟩)
+  exact ⟨dumps Gen.ensureAscii j ++ Gen.suffix, by unfold serializeRecord; rw [hj]⟩
+example : (toJson Gen.defaultIsStr exStr (.list (.cons (.opaque 1) (.cons (.opaque 2) .nil))) matches .error .valueError) = true := by
+  decide
+example : (toJson Gen.defaultIsStr exStr (.list (.cons (.opaque 1) .nil))).toOption.map (dumps Gen.ensureAscii) =
+    some "[\"x\\r\"]".toList := by decide
+
 end C14
